@@ -104,11 +104,12 @@ type Violation struct {
 func (v Violation) Class() string { return v.Property + "|" + v.Kind + "|" + v.Sig }
 
 type parked struct {
-	label  string
-	gid    int64
-	rel    chan int
-	choose int // >0: wants a choice in [0,choose)
-	where  string
+	slowChecked bool
+	label       string
+	gid         int64
+	rel         chan int
+	choose      int // >0: wants a choice in [0,choose)
+	where       string
 }
 
 // Action is a simulator-side event (fault, scripted step) that becomes
@@ -161,18 +162,27 @@ type Sim struct {
 	actions   []*Action
 	invariant func() // called after every quiescence
 
-	policy    Policy
-	polRng    *rand.Rand
-	lastGid   int64
-	prio      map[int64]int
-	slowGid   map[int64]time.Time
-	labels    map[string]int
-	nontriv   atomic.Bool
-	finished  bool
-	TimedOut  bool
-	StepsOut  bool
-	End       time.Duration // simulated time at which the scheduler stopped
-	StuckDump string        // goroutine stacks taken when the run ended unfinished
+	policy  Policy
+	polRng  *rand.Rand
+	lastGid int64
+	prio    map[int64]int
+	slowGid map[int64]time.Time
+	// "slow node" fault: a goroutine that arrives at a scheduling point whose
+	// label SlowMatch accepts is held there for one of SlowDurs (fake time) with
+	// probability SlowPermille/1000, at most SlowMax times per run. Drawn from
+	// the schedule tape, so it replays and shrinks like every other choice.
+	SlowPermille int
+	SlowMax      int
+	SlowDurs     []time.Duration
+	SlowMatch    func(label string) bool
+	slowCount    int
+	labels       map[string]int
+	nontriv      atomic.Bool
+	finished     bool
+	TimedOut     bool
+	StepsOut     bool
+	End          time.Duration // simulated time at which the scheduler stopped
+	StuckDump    string        // goroutine stacks taken when the run ended unfinished
 }
 
 func goid() int64 {
@@ -429,6 +439,18 @@ func (s *Sim) enabled(now time.Duration) []enabledEv {
 	sort.SliceStable(s.parked, func(i, j int) bool { return s.parked[i].gid < s.parked[j].gid })
 	wall := time.Now()
 	for i, p := range s.parked {
+		if !p.slowChecked {
+			p.slowChecked = true
+			if s.SlowPermille > 0 && s.slowCount < s.SlowMax && len(s.SlowDurs) > 0 && s.SlowMatch != nil && s.SlowMatch(p.label) {
+				if s.Sched.Intn(1000) < s.SlowPermille {
+					d := s.SlowDurs[s.Sched.Intn(len(s.SlowDurs))]
+					s.slowGid[p.gid] = wall.Add(d)
+					s.slowCount++
+					s.Fault("slow-goroutine")
+					s.tracef("slow %s %v", p.label, d)
+				}
+			}
+		}
 		if until, ok := s.slowGid[p.gid]; ok {
 			if wall.Before(until) {
 				continue
